@@ -1,6 +1,7 @@
 import SlVerif.Drv.Gf128
 import SlVerif.Drv.Matrix
 import SlVerif.Drv.Math
+import SlVerif.Drv.Relay
 /-
   sldriver: line-protocol server around the executable models.
   request:  `<ns> <op> <args…>`           (one line)
@@ -14,6 +15,7 @@ def dispatch (toks : List String) : IO String := do
   | "gf" :: rest => pure ((Drv.Gf.handle rest).getD "!bad-op")
   | "mat" :: rest => pure ((Drv.Matrix.handle rest).getD "!bad-op")
   | "math" :: rest => pure ((Drv.Math.handle rest).getD "!bad-op")
+  | "relay" :: rest => pure ((Drv.Relay.handle rest).getD "!bad-op")
   | ["ping"] => pure "pong"
   | _ => pure "!bad-op"
 
